@@ -219,6 +219,41 @@ pub fn run(desc: &Value, ctx: &Ctx) -> CaseOut {
                 }
             }
         }
+        // 3c. packs kept by the application somewhere else and recorded with the EMPTY location: the container is opened with
+        //     an application locator that finds a pack by its uuid alone (`Container::new_with_locator`)
+        {
+            let adir = scratch.path("catalogue-entry");
+            let store = scratch.path("catalogue-store");
+            std::fs::create_dir_all(&adir).unwrap();
+            std::fs::create_dir_all(&store).unwrap();
+            if let Ok(created) = create_loose(&base, &adir, &|_, _| String::new(), None) {
+                let mut map = std::collections::HashMap::new();
+                for f in created.files.iter().filter(|f| **f != created.path) {
+                    let to = store.join(f.file_name().unwrap());
+                    if std::fs::rename(f, &to).is_ok() {
+                        if let Ok(bytes) = std::fs::read(&to) {
+                            for pk in crate::indep::decode_file(&bytes).packs {
+                                map.insert(uuid::Uuid::from_bytes(pk.hdr.uuid), to.clone());
+                            }
+                        }
+                    }
+                }
+                let mut plan = plan_for(&base, Some(&created));
+                plan.manifest_free = true;
+                let got = dump_container_with(&created.path, &plan, Some(Arc::new(UuidLocator(map))));
+                let exp = expected_dump(&base, &created, &plan);
+                let diffs = diff(&exp, &got, |k| !k.starts_with("check/file/"));
+                scenarios += 1;
+                out.obs.inc("scenario.application-locator");
+                if !diffs.is_empty() {
+                    out.violate(
+                        json!({"kind": "packaging", "scenario": "application-locator", "item": diffs[0].split(':').next().unwrap_or("").split('/').next().unwrap_or(""), "profile": profile()}),
+                        format!("C10: packs recorded with the empty location and served by an application locator (by uuid): {} item(s) differ; first: {}", diffs.len(), diffs[0]),
+                        json!({"diffs": diffs.iter().take(5).collect::<Vec<_>>()}),
+                    );
+                }
+            }
+        }
         // 3b. a LONE pack appended to a prefix: the manifest of the every-pack-separate packaging (the entry point itself), and
         //     a separate content pack file found through its recorded location; both are opened through their tail
         if let Some((case, created)) = &noconcat {
